@@ -17,9 +17,14 @@
      class.  An unhashable key value was the defect W-C (TypeError escaping render_vars / finalize_context on the
      real engine; repaired as D29); what remains behind this hypothesis is the model's limitation to string keys.
    - static_ok sp g (decidable: static_ok_b): every graph task has a spec entry; every edge refers to an
-     existing transition of its source; engine commands are inert (no transitions, no retry) and startable;
-     and -- a restriction of THIS proof, not of the engine -- a task has at most one edge to an engine command
-     (two transitions to the same command are kept apart by fresh routes in the engine; not modelled here). *)
+     existing transition of its source; engine commands are inert (no transitions, no retry) and startable.
+     A task may have any number of edges to engine commands.
+   - per provider call (op_in_scope, decidable: op_in_scope_b / hist_in_scope_b), beside well-formedness of the call:
+     cmd_routes_distinct c t route -- the edges of t to engine commands that KEEP the route (the command is no split,
+     or the route already carries the transition id) lead to different commands.  Edges that open a route get one
+     each, so the commands queued by one completion are different (task, route) keys.  Where the clause fails the
+     engine queues the same key twice and the second call raises TypeError (example below; the graph there has more
+     edges to the command than the definition has transitions naming it, which the composer never produces). *)
 From Coq Require Import String List Bool ZArith.
 From Orq Require Import GenStatuses GenEvents GenTables Base State Machines Conductor Api F_tables
   RetryProofs RetryBoundProofs NoInternalProofs.
@@ -52,6 +57,7 @@ Print Assumptions C15_no_internal_error_history.
 (* [F] update_task_state alone *)
 Theorem C15_update_task_state_no_internal : forall ev, eval_no_internal ev -> forall t route evt c c' r,
   WF c -> static_ok (c_spec c) (c_graph c) -> provider_event evt = true -> wellformed_call_b c t route evt = true ->
+  cmd_routes_distinct c t route ->
   update_task_state ev t route evt c = (c', r) -> WF c' /\ (forall x, r = Exc x -> ~ internal_cls x).
 Proof. exact update_task_state_wf. Qed.
 Print Assumptions C15_update_task_state_no_internal.
@@ -77,6 +83,9 @@ Theorem C15_WF_decidable : forall c, WF_b c = true -> WF c.
 Proof. exact WF_b_sound. Qed.
 Theorem C15_history_decidable : forall ev ops c, hist_in_scope_b ev ops c = true -> hist_in_scope ev ops c.
 Proof. exact hist_in_scope_b_sound. Qed.
+Theorem C15_cmd_routes_distinct_decidable : forall c t route,
+  cmd_routes_distinct_b c t route = true -> cmd_routes_distinct c t route.
+Proof. exact cmd_routes_distinct_b_sound. Qed.
 Theorem C15_evaluator_sufficient : forall ev,
   (forall s ctx e, ev s ctx = EvErr e -> ~ internal_cls e) ->
   (forall s ctx v, ev s ctx = EvOk v -> match v with JStr _ | JList _ | JDict _ => True | _ => False end) ->
@@ -85,6 +94,7 @@ Proof. exact eval_no_internal_of. Qed.
 Print Assumptions C15_static_ok_decidable.
 Print Assumptions C15_WF_decidable.
 Print Assumptions C15_history_decidable.
+Print Assumptions C15_cmd_routes_distinct_decidable.
 Print Assumptions C15_evaluator_sufficient.
 
 (* ------------------------------------------------------------------ examples: the theorem is not vacuous,
@@ -194,6 +204,60 @@ Example late_pending_report_absorbed :
   wellformed_call_b c "t1" 0 (EvItem 0 S_PENDING JNull (JList [])) = true /\
   view (fst (api_exec ev_toy (it 0 S_PENDING) c)) = view c /\ cls (snd (api_exec ev_toy (it 0 S_PENDING) c)) = "".
 Proof. cbv zeta. split; [vm_compute; reflexivity|split; vm_compute; reflexivity]. Qed.
+
+(* ---- several transitions of one task to engine commands ---- *)
+
+(* t1 fails the workflow by two transitions and has a third to noop: `fail` is named twice, so it is a split and
+   each edge opens a route; three commands are queued by the one completion, on routes 1, 2 and 0 *)
+Definition mk (sp : wf_spec) (g : graph) : cstate :=
+  {| c_spec := sp; c_graph := g; c_inputs := []; c_parent := []; c_init := false; c_ws := empty_ws;
+     c_errors := []; c_log := []; c_output := None |}.
+Definition tr d := {| tr_when := JNull; tr_publish := []; tr_do := [d] |}.
+Definition cmds_spec (nxt : list transition_spec) : wf_spec :=
+  {| wf_input := []; wf_vars := []; wf_output := [];
+     wf_tasks := [("t1", {| ts_action := JStr "core.noop"; ts_input := JDict []; ts_with := None; ts_delay := JNull;
+                            ts_join := JNull; ts_next := nxt |})] |}.
+Definition edge d k r := {| e_src := "t1"; e_dst := d; e_key := k; e_ref := r; e_criteria := [] |}.
+Definition graph3 : graph :=
+  {| g_nodes := [node "t1" JNull; node "fail" JNull; node "noop" JNull];
+     g_edges := [edge "fail" 0 0; edge "fail" 1 1; edge "noop" 0 2] |}.
+Definition boot3 : cstate := fst (ensure_ws ev_toy (mk (cmds_spec [tr "fail"; tr "fail"; tr "noop"]) graph3)).
+Definition h3 : list api_op := [OpRequest S_RUNNING; OpGetNext; act "t1" S_RUNNING; act "t1" S_SUCCEEDED; OpRender].
+
+Example three_commands_in_scope :
+  static_ok (c_spec boot3) (c_graph boot3) /\ WF boot3 /\ hist_in_scope ev_toy h3 boot3.
+Proof.
+  split; [apply static_ok_b_sound; vm_compute; reflexivity|].
+  split; [apply WF_b_sound; vm_compute; reflexivity|apply hist_in_scope_b_sound; vm_compute; reflexivity].
+Qed.
+Example three_commands_run :
+  (wstatus (c_ws (run_ops ev_toy h3 boot3)),
+   map (fun r => (r_id r, r_route r, r_status r)) (sequence (c_ws (run_ops ev_toy h3 boot3))),
+   routes (c_ws (run_ops ev_toy h3 boot3)))
+  = (S_FAILED,
+     [("t1", 0, Some S_SUCCEEDED); ("fail", 1, Some S_FAILED); ("fail", 2, Some S_FAILED); ("noop", 0, Some S_SUCCEEDED)],
+     [[]; [("t1", 0)]; [("t1", 1)]]) /\
+  no_internal_run ev_toy h3 boot3.
+Proof.
+  split; [vm_compute; reflexivity|].
+  destruct three_commands_in_scope as [A [B C]].
+  destruct (C15_no_internal_error_history ev_toy ev_toy_ok h3 boot3 B A C) as [D _]. exact D.
+Qed.
+
+(* the clause is needed: one transition named in the definition (so `fail` is no split) but two edges in the graph
+   -- both keep route 0, ("fail", 0) is queued twice, and the second call finds nothing staged *)
+Definition graph4 : graph :=
+  {| g_nodes := [node "t1" JNull; node "fail" JNull]; g_edges := [edge "fail" 0 0; edge "fail" 1 0] |}.
+Definition c4 : cstate :=
+  run_ops ev_toy [OpRequest S_RUNNING; OpGetNext; act "t1" S_RUNNING] (fst (ensure_ws ev_toy (mk (cmds_spec [tr "fail"]) graph4))).
+Example same_command_same_route_refuted :
+  static_ok (c_spec c4) (c_graph c4) /\ WF c4 /\ wellformed_call_b c4 "t1" 0 (EvAction S_SUCCEEDED JNull) = true /\
+  cmd_routes_distinct_b c4 "t1" 0 = false /\
+  cls (snd (api_exec ev_toy (act "t1" S_SUCCEEDED) c4)) = "TypeError".
+Proof.
+  split; [apply static_ok_b_sound; vm_compute; reflexivity|]. split; [apply WF_b_sound; vm_compute; reflexivity|].
+  split; [vm_compute; reflexivity|]. split; vm_compute; reflexivity.
+Qed.
 
 (* the evaluator hypothesis marks the model's limitation to string keys: a key expression answering a number *)
 Definition ev_numkey (s : string) (ctx : dict) : evalres := if String.eqb s "<% 1 %>" then EvOk (JInt 1) else EvOk (JStr s).
